@@ -17,7 +17,11 @@ RULE = (
     "a case is one generated program (tree of with-statements over settings classes, raises, try blocks, "
     "library calls); it is non-trivial when it contains at least one with-block that changes an observable "
     "AND (a nested block or an exception or a library call); distinct = distinct canonical program shape "
-    "(class names, argument values, statement structure) counted with a hash set"
+    "(class names, argument values, statement structure) counted with a hash set.  Every batch additionally contains the "
+    "EXHAUSTIVE enumeration of the two-level nesting space: 94 representative constructor calls (every exported class, "
+    "every field) as outer block x the same 94 as inner block x {no exception, exception in the inner body, exception "
+    "(Exception or BaseException) in the outer body after the inner block closed} = 26508 programs "
+    "(probe enumerated_two_level_program)"
 )
 STUBBED = [
     "user-owned kernel / noise model / variational strategy with a SimFault fault point (the place a real OOM surfaces)"
@@ -28,8 +32,8 @@ ASSUMPTIONS = [
     "linear_operator is the installed dependency, not part of /repo; its settings classes are exercised because gpytorch.settings exports them",
 ]
 EXPECTED_PROBES = {
-    "quick": ["exception_through_block", "raising_constructor", "libcall_fault_fired", "nested_same_class", "base_exception"],
-    "thorough": ["exception_through_block", "raising_constructor", "libcall_fault_fired", "nested_same_class", "base_exception"],
+    "quick": ["exception_through_block", "raising_constructor", "libcall_fault_fired", "nested_same_class", "base_exception", "enumerated_two_level_program"],
+    "thorough": ["exception_through_block", "raising_constructor", "libcall_fault_fired", "nested_same_class", "base_exception", "enumerated_two_level_program"],
 }
 
 
@@ -334,7 +338,69 @@ def gen_block(rng, cfg, depth):
     return stmts
 
 
+def enum_items():
+    """Representative constructor calls of every exported setting (2 per class; more for the multi-field ones)."""
+    items = []
+    for n in catalogue_names():
+        if n in FLAG_DEFAULTS:
+            items += [[n, {"state": True}], [n, {"state": False}]]
+            if n == "fast_pred_var":
+                items += [[n, {"state": True, "num_probe_vectors": 5}], [n, {"state": False, "num_probe_vectors": 2}]]
+        elif n in VALUE_DEFAULTS:
+            if n == "observation_nan_policy":
+                items += [[n, {"value": "mask"}], [n, {"value": "fill"}]]
+            elif n.startswith("_linalg_dtype"):
+                items += [[n, {"value": "torch.float32"}], [n, {"value": "torch.float64"}]]
+            elif n in INT_VALUED:
+                items += [[n, {"value": 0}], [n, {"value": 17}]]
+            else:
+                items += [[n, {"value": 1e-8}], [n, {"value": 0.5}]]
+        elif n in DTYPE_DEFAULTS:
+            items += [[n, {"float_value": 0.05}], [n, {"double_value": 1e-3, "half_value": 0.5}], [n, {"float_value": 1.0, "double_value": 10.0, "half_value": 1e-3}]]
+        elif n == "fast_computations":
+            items += [[n, {"covar_root_decomposition": False}], [n, {"log_prob": False, "solves": True}], [n, {"covar_root_decomposition": False, "log_prob": False, "solves": False}]]
+        elif n == "linalg_dtypes":
+            items += [[n, {"default": "torch.float32"}], [n, {"default": "torch.float64", "cholesky": "torch.float32"}]]
+    return items
+
+
+_ENUM = {}
+
+
+def enum_program(index):
+    """Exhaustive enumeration of the two-level nesting space: outer item x inner item x exception placement.
+    placement 0: no exception; 1: raised in the inner body; 2: raised in the outer body after the inner block closed."""
+    if "items" not in _ENUM:
+        _ENUM["items"] = enum_items()
+    items = _ENUM["items"]
+    n = len(items)
+    total = n * n * 3
+    if index >= total:
+        return None
+    place, rest = index % 3, index // 3
+    inner, outer = items[rest % n], items[rest // n]
+    if place == 0:
+        body = [["with", [inner], [["obs"]]], ["obs"]]
+    elif place == 1:
+        body = [["try", [["with", [inner], [["raise", "exc"]]]]], ["obs"]]
+    else:
+        body = [["with", [inner], [["obs"]]], ["raise", "base" if (rest % 2) else "exc"]]
+    return [["with", [outer], body], ["obs"]]
+
+
+def enum_size():
+    if "items" not in _ENUM:
+        _ENUM["items"] = enum_items()
+    return len(_ENUM["items"]) ** 2 * 3
+
+
 def generate(rng, tier, index):
+    if tier == "thorough" or index % 2 == 0:
+        # the even indices of a quick batch (all first indices of a thorough batch) walk through the exhaustive
+        # two-level enumeration; a quick batch of 60000 covers all ~29000 of it
+        e = enum_program(index // 2 if tier != "thorough" else index)
+        if e is not None:
+            return {"ops": e, "header": {"enumerated": True}}
     allnames = catalogue_names()
     # swarm: per run, a subset of classes (so same-class nesting is frequent), structure knobs, fault kinds
     mode = rng.random()
@@ -639,6 +705,8 @@ def execute(history):
     # at program end the model equals the defaults by construction; the real values are compared to it
     it.O = default_observation()
     it.check("end")
+    if history.get("header", {}).get("enumerated"):
+        out.stats["probe:enumerated_two_level_program"] += 1
     n_with, n_nest, n_raise, n_lib = _shape(ops)
     out.nontrivial = n_with >= 1 and (n_nest + n_raise + n_lib) >= 1
     out.sketch = json.dumps(ops, sort_keys=True)
